@@ -45,7 +45,7 @@ PER_FILE = 40
 # GenomicIntervalsFull.clip on an interval lying entirely outside its chromosome ([5,7) on size 3 -> [5,3) at HEAD) is
 # outside the property's quantifier (intervals of a chromosome) and is only generated once notes/C10.fix-4.diff is
 # committed (then set this to True and switch m_clip_start / m_clip_stop in Model/C10.v).
-CLIP_OUTSIDE_FULL = False
+CLIP_OUTSIDE_FULL = True
 
 ERR = {'AssertionError': 1, 'AttributeError': 2, 'IndexError': 3, 'GenomeError': 4, 'Exception': 5,
        'ComputationException': 6}
